@@ -21,6 +21,7 @@ namespace OtelVerif.C02
 /-- `putInternal` after the loop: store, `writeIndex++`, `queueSize += reqSize`, `hasMoreElements.Signal()` -/
 def paccept (s : St) (p : Nat) (el : Int) : St :=
   { s with size := s.size + el, items := s.items ++ [(p, el)], accepted := s.accepted ++ [p],
+           cwait := s.cwait.drop 1, cwoken := s.cwoken ++ s.cwait.take 1,
            ps := upd s.ps p { s.ps p with ph := .done .ok, el := el, sig := false } }
 
 /-- one evaluation of the `for pq.queueSize+reqSize > pq.set.capacity` loop, holding the lock -/
@@ -58,23 +59,23 @@ def pfire (k : Cfg) (s : St) : Label → Option St
   | .getRes _ => none
   | .resCtx _ => none
   | .read c =>
-    if c ∈ s.cwait then none else
+    if c ∈ s.cwait ++ s.cwoken then none else
     if s.stopped then some s else
     match ppop s with
     | some s' => some s'
     | none => some { s with cwait := s.cwait ++ [c] }
   | .recheck c =>
-    if c ∈ s.cwait then
-      if s.stopped then some { s with cwait := s.cwait.erase c } else
+    if c ∈ s.cwoken then
+      if s.stopped then some { s with cwoken := s.cwoken.erase c } else
       match ppop s with
-      | some s' => some { s' with cwait := s'.cwait.erase c }
-      | none => none
+      | some s' => some { s' with cwoken := s'.cwoken.erase c }
+      | none => some { s with cwoken := s.cwoken.erase c, cwait := s.cwait ++ [c] }
     else none
   | .complete id e =>
     match s.inflight.lookup id with
     | some el => some (pfinish s id el e)
     | none => none
-  | .shutdown => some { s with stopped := true }
+  | .shutdown => some { s with stopped := true, cwait := [], cwoken := s.cwoken ++ s.cwait }
 
 def prunSched (k : Cfg) : St → List Label → Option St
   | s, [] => some s
